@@ -6,6 +6,68 @@ from . import common
 from .common import ToolError, log
 
 
+class EvStore:
+    """Events of a (sharded) corpus kept on disk; indexable lazily so that thorough corpora with
+    millions of events never sit in memory."""
+
+    def __init__(self):
+        self.shards = []  # (path, n)
+        self._cache = {}
+
+    def add(self, path, n):
+        self.shards.append((path, n))
+
+    def __len__(self):
+        return sum(n for _, n in self.shards)
+
+    def _locate(self, idx):
+        for path, n in self.shards:
+            if idx < n:
+                return path, idx
+            idx -= n
+        raise IndexError(idx)
+
+    def prefetch(self, idxs):
+        want = {}
+        for i in idxs:
+            if i not in self._cache:
+                path, k = self._locate(i)
+                want.setdefault(path, {})[k] = i
+        for path, ks in want.items():
+            with open(path) as f:
+                for ln, line in enumerate(f):
+                    if ln in ks:
+                        self._cache[ks[ln]] = json.loads(line)
+
+    def __getitem__(self, idx):
+        if isinstance(idx, slice):
+            idxs = list(range(*idx.indices(len(self))))
+            self.prefetch(idxs)
+            return [self._cache[i] for i in idxs]
+        if idx not in self._cache:
+            self.prefetch([idx])
+        return self._cache[idx]
+
+    def __iter__(self):
+        for path, _ in self.shards:
+            with open(path) as f:
+                for line in f:
+                    if line.strip():
+                        yield json.loads(line)
+
+    def op_counts(self):
+        import re
+        c = {}
+        rx = re.compile(r'"op":"([a-z0-9_]+)"')
+        for path, _ in self.shards:
+            with open(path) as f:
+                for line in f:
+                    m = rx.search(line)
+                    if m:
+                        c[m.group(1)] = c.get(m.group(1), 0) + 1
+        return c
+
+
 def gen_descs(rep, wd, module, cfg, label, workers=4, timeout=1200):
     out = os.path.join(wd, label + ".descs.ndjson")
     r = common.tlc(module, cfg=cfg, env={"OUT": out}, workers=workers, wd=wd, timeout=timeout)
@@ -79,11 +141,11 @@ def run_and_validate_sharded(rep, wd, descs_path, label, shards=8, timeout=3600)
         ev, bad = _run_validate_any(sub, wd, pth, "%s.s%d" % (label, s), timeout)
         return sub, ev, bad
 
-    events, bad = [], []
+    events, bad = EvStore(), []
     with ThreadPoolExecutor(max_workers=min(12, len(parts))) as ex:
         for sub, ev, b in ex.map(one, parts):
             base = len(events)
-            events += ev
+            events.add(ev[0], ev[1])
             bad += [(i + base, kind) for i, kind in b]
             rep.states += sub.states
             rep.transitions += sub.transitions
@@ -98,15 +160,17 @@ def _run_validate_any(rep, wd, descs_path, label, timeout):
     p = common.harness(["hal", descs_path, ev_path], env={"VERIF_SEED": common.seed()}, timeout=timeout)
     if p.returncode != 0:
         raise ToolError("harness hal failed rc=%d\n%s" % (p.returncode, p.stdout[-3000:]))
-    events = common.read_ndjson(ev_path)
-    r = common.tlc("Hal/HalTrace", env={"TRACE": ev_path}, workers=1, wd=wd, timeout=timeout, xmx="4g")
+    with open(ev_path) as f:
+        nev = sum(1 for line in f if line.strip())
+    events = (ev_path, nev)
+    r = common.tlc("Hal/HalTrace", env={"TRACE": ev_path}, workers=1, wd=wd, timeout=timeout, xmx="6g")
     common.tlc_must(r, "trace " + label)
     v = r.printed("VERDICT")
     if not r.ok or not v:
         raise ToolError("trace validation of %s did not complete:\n%s" % (label, r.out[-3000:]))
     n = int(v[0].split(", ", 1)[0])
-    if n != len(events) or r.distinct != n + 1:
-        raise ToolError("trace %s: TLC consumed %d of %d events" % (label, r.distinct - 1, len(events)))
+    if n != nev or r.distinct != n + 1:
+        raise ToolError("trace %s: TLC consumed %d of %d events" % (label, r.distinct - 1, nev))
     bad = [(k - 1, kind) for k, kind in json.loads(json.loads(v[0].split(", ", 1)[1]))]
     rep.states += r.distinct
     rep.transitions += r.generated
@@ -147,6 +211,8 @@ def report(rep, events, bad, kinds, corpus):
     """Turn verdicts of the given kinds into violations (deduplicated by key)."""
     seen = set()
     nbad = 0
+    if isinstance(events, EvStore):
+        events.prefetch([idx for idx, kind in bad if kind in kinds])
     for idx, kind in bad:
         if kind not in kinds:
             continue
@@ -222,7 +288,7 @@ def run_corpus(rep, wd, name, tier, subsample_n=None):
     rep.evaluations += len(events) * 8
     rep.distinct += len(events)
     ops = rep.extra.setdefault("ops_covered", {})
-    for e in events:
-        ops[e["op"]] = ops.get(e["op"], 0) + 1
+    for k_, v_ in events.op_counts().items():
+        ops[k_] = ops.get(k_, 0) + v_
     rep.extra.setdefault("corpora", []).append({"corpus": name, "descriptors_in_scope": n, "descriptors_run": nd, "events": len(events)})
     return events, bad
